@@ -66,6 +66,8 @@ def run(rep: Report, tier: str) -> None:
 	rule_range_bound_closed(rep, idx, pm, tm, nm)
 	rule_comment_line(rep, tm)
 	rule_exception_aliases(rep, idx)
+	from checks import c17
+	c17.rule_member_refs_only(rep, idx, 'C01/only-member-references-are-literalised')
 
 
 # ---- (a) precedence ---------------------------------------------------------------------------------------------------
@@ -125,8 +127,111 @@ def _wraps(pm: Py2CppModel, nm: NodeModel, idx: SourceIndex) -> list[tuple[set[s
 				continue
 			if not parents:
 				parents = {name[3:]} if name.startswith('on_') else pm.classifications_reaching(name)
+			# the class test and the text that gets the parentheses must speak about the SAME operand: where they are drawn from two sequences
+			# (a comprehension / loop over the operands), the sequences have to be position-aligned
+			tested = next((a.args[0] for a, pol in atoms(fx, n) if pol and isinstance(a, ast.Call) and isinstance(a.func, ast.Name) and a.func.id == 'isinstance' and len(a.args) == 2 and unparse(a.args[0]) != node_param), None)
+			misaligned = _unaligned(pm, f, fx, n, parts[1][1], tested, node_param) if tested is not None else None
+			if misaligned:
+				UNALIGNED_WRAPS.append((parents, child_classes, f'{f.qualname}:{n.lineno}', misaligned))
+				continue
 			out.append((parents, child_classes, f'{f.qualname}:{n.lineno}'))
 	return out
+
+
+UNALIGNED_WRAPS: list = []
+
+
+def _unaligned(pm: Py2CppModel, f, fx: ast.AST, wrap: ast.AST, text: ast.AST, tested: ast.AST, node_param: str, depth: int = 0) -> str | None:
+	"""None when the tested node and the wrapped text are the same operand; else why not. Scalar pairings (`node.value` / `value`) are taken as they
+	are; a pairing through two sequences A (nodes) and B (texts) is aligned when B is A with `node.<prop>` replaced by the handler parameter `<prop>` —
+	the protocol of Procedure hands a handler the results of `node.<prop>` under that name, in the same order."""
+	from vlib.flow import parent_map
+	from vlib.match import X, deref
+	import copy
+	pm_ = parent_map(fx)
+	# the enclosing comprehension / for loop that binds both names
+	seqs = None
+	cur = wrap
+	names = {x.id for x in ast.walk(text) if isinstance(x, ast.Name)} | {x.id for x in ast.walk(tested) if isinstance(x, ast.Name)}
+	while id(cur) in pm_ and seqs is None:
+		cur = pm_[id(cur)]
+		gens = cur.generators if isinstance(cur, (ast.ListComp, ast.GeneratorExp, ast.SetComp, ast.DictComp)) else ([cur] if isinstance(cur, ast.For) else [])
+		for g in gens:
+			tnames = [x.id for x in ast.walk(g.target) if isinstance(x, ast.Name)]
+			if not (set(tnames) & names):
+				continue
+			it = g.iter
+			if isinstance(it, ast.Name):
+				it = deref(fx, it)
+			if isinstance(it, ast.Call) and unparse(it.func) == 'list' and len(it.args) == 1:
+				it = it.args[0]
+			if isinstance(it, ast.Call) and unparse(it.func) == 'zip' and len(it.args) == 2 and isinstance(g.target, ast.Tuple) and len(g.target.elts) == 2 and all(isinstance(e, ast.Name) for e in g.target.elts):
+				a_, b_ = it.args
+				if unparse(tested) == g.target.elts[1].id and unparse(text) == g.target.elts[0].id:
+					a_, b_ = b_, a_
+				elif not (unparse(tested) == g.target.elts[0].id and unparse(text) == g.target.elts[1].id):
+					return f'`{unparse(tested)}` / `{unparse(text)}` are not the two targets of `{unparse(g.target)} in {unparse(it)[:60]}`'
+				seqs = (a_, b_)
+			elif isinstance(it, ast.Call) and unparse(it.func) == 'enumerate' and len(it.args) == 1 and isinstance(g.target, ast.Tuple) and len(g.target.elts) == 2 and all(isinstance(e, ast.Name) for e in g.target.elts):
+				i_, v_ = g.target.elts[0].id, g.target.elts[1].id
+				if unparse(text) == v_ and isinstance(tested, ast.Subscript) and unparse(tested.slice) == i_:
+					seqs = (tested.value, it.args[0])
+				elif unparse(tested) == v_ and isinstance(text, ast.Subscript) and unparse(text.slice) == i_:
+					seqs = (it.args[0], text.value)
+				else:
+					return f'`{unparse(tested)}` / `{unparse(text)}` are not indexed by the counter of `{unparse(g.target)} in {unparse(it)[:60]}`'
+			elif isinstance(g.target, ast.Name) and isinstance(tested, ast.Subscript) and isinstance(text, ast.Subscript) and unparse(tested.slice) == unparse(text.slice) == g.target.id:
+				seqs = (tested.value, text.value)
+	if seqs is None:
+		return None  # scalar pairing
+	a_, b_ = seqs
+
+	def expand(e: ast.AST, depth_: int = 0, own=f, body=fx) -> ast.AST:
+		class T(ast.NodeTransformer):
+			def visit_Name(self, x: ast.Name):
+				if not isinstance(x.ctx, ast.Load) or x.id in own.params() or depth_ > 4:
+					return x
+				d_ = deref(body, x)
+				return expand(d_, depth_ + 1, own, body) if d_ is not x else x
+		return T().visit(copy.deepcopy(e))
+
+	def to_text_side(e: ast.AST) -> ast.AST:
+		class T(ast.NodeTransformer):
+			def visit_Attribute(self, x: ast.Attribute):
+				if isinstance(x.value, ast.Name) and x.value.id == node_param:
+					return ast.Name(id=x.attr, ctx=ast.Load())
+				return self.generic_visit(x)
+		return T().visit(copy.deepcopy(e))
+	ea, eb = expand(a_), expand(b_)
+	if unparse(to_text_side(ea)) == unparse(to_text_side(eb)) and unparse(ea) != unparse(eb):
+		return None
+	# both sequences are parameters of a helper: aligned when every call passes aligned arguments
+	params = f.params()
+	if isinstance(a_, ast.Name) and isinstance(b_, ast.Name) and a_.id in params and b_.id in params and depth < 2:
+		ia, ib = params.index(a_.id) - 1, params.index(b_.id) - 1
+		sites = [(g, X(g), c_) for g in pm.methods.values() for c_ in ast.walk(X(g)) if isinstance(c_, ast.Call) and isinstance(c_.func, ast.Attribute) and c_.func.attr == f.name and isinstance(c_.func.value, ast.Name) and c_.func.value.id == 'self']
+		if not sites:
+			return f'helper {f.name} is never called'
+		for g, gx, c_ in sites:
+			if max(ia, ib) >= len(c_.args):
+				return f'call `{unparse(c_)[:80]}` does not pass both sequences positionally'
+			gp = g.params()[1] if len(g.params()) > 1 else 'node'
+
+			def expand_g(e: ast.AST) -> ast.AST:
+				return expand(e, 0, g, gx)
+
+			def to_text_g(e: ast.AST) -> ast.AST:
+				class T(ast.NodeTransformer):
+					def visit_Attribute(self, x: ast.Attribute):
+						if isinstance(x.value, ast.Name) and x.value.id == gp:
+							return ast.Name(id=x.attr, ctx=ast.Load())
+						return self.generic_visit(x)
+				return T().visit(copy.deepcopy(e))
+			xa, xb = expand_g(c_.args[ia]), expand_g(c_.args[ib])
+			if not (unparse(to_text_g(xa)) == unparse(to_text_g(xb)) and unparse(xa) != unparse(xb)):
+				return f'{g.name} calls {f.name}({unparse(c_.args[ia])[:40]}, {unparse(c_.args[ib])[:40]}): the node sequence `{unparse(xa)[:70]}` and the text sequence `{unparse(xb)[:70]}` are not the same selection of operands'
+		return None
+	return f'the node sequence `{unparse(ea)[:70]}` and the text sequence `{unparse(eb)[:70]}` are not the same selection of operands'
 
 
 def rule_a(rep, idx, pm, tm, nm, gm) -> None:
@@ -138,6 +243,7 @@ def rule_a(rep, idx, pm, tm, nm, gm) -> None:
 		raise AnalysisError(f'C01-a: operator ladder of data/grammar.lark has only {len(levels)} levels (expected >= 11)')
 	t2c = nm.tag_to_classes()
 	prods = gm.productions()
+	UNALIGNED_WRAPS.clear()
 	wraps = _wraps(pm, nm, idx)
 	info: dict[str, dict] = {}
 	for lv in levels:
@@ -233,7 +339,9 @@ def rule_a(rep, idx, pm, tm, nm, gm) -> None:
 									if need == 'postfix':
 										pass  # decided by the type-directed exclusion below
 					if bad and not wrapped(ptag, cd['cls'].name):
-						r.violate(key, where, f'Python groups `{ct}` inside `{pt}` without parentheses, but as emitted {bad[0]}; neither the template nor the handler wraps the operand (e.g. `{_example(pt, ct)}`)', f'{pd["handler"].qualname} -> {[f.pattern for f in pforms][:2]}')
+						pc_ = nm.classification(info[ptag]['cls'])
+						near = [(w_, why_) for ps_, cs_, w_, why_ in UNALIGNED_WRAPS if pc_ in ps_ and cd['cls'].name in cs_]
+						r.violate(key, where, f'Python groups `{ct}` inside `{pt}` without parentheses, but as emitted {bad[0]}; ' + (f'the parenthesisation at {near[0][0]} tests the class of one operand and wraps the text of another ({near[0][1]}), so some operand — e.g. the right-hand one — is emitted without its parentheses (e.g. `{_example(pt, ct)}`)' if near else f'neither the template nor the handler wraps the operand (e.g. `{_example(pt, ct)}`)'), f'{pd["handler"].qualname} -> {[f.pattern for f in pforms][:2]}')
 					else:
 						r.ok(key, where, message='wrapped by handler' if bad else '')
 
